@@ -9,6 +9,7 @@ package agent
 
 import (
 	"context"
+	"fmt"
 	"encoding/binary"
 	"os"
 	"sort"
@@ -299,6 +300,79 @@ func (v *VerifC01Agent) SetShardSampleBudget(bytes int) {
 func (v *VerifC01Agent) PreProcess(bucket *data_model.MetricsBucket, seed uint64) {
 	v.shard.preProcess(bucket, nil, map[int32]uint32{}, map[int32]uint32{}, rand.New(seed))
 }
+
+// ---- the fail-safe eraser (goEraseHistoric) on an agent with several shards
+
+type VerifC01Multi struct{ A *Agent }
+
+// VerifC01NewMulti: real MakeAgent with nShards shards and a disk cache; every shard's config gets maxDisk as
+// MaxHistoricDiskSize (the limit for ALL shards together; goEraseHistoric compares a shard's usage with maxDisk/nShards).
+func VerifC01NewMulti(cacheDir string, nShards int, maxDisk int64, client rpc.Client) (*VerifC01Multi, error) {
+	config := DefaultConfig()
+	config.MaxHistoricDiskSize = maxDisk
+	var addrs []string
+	for i := 0; i < nShards*3; i++ {
+		addrs = append(addrs, fmt.Sprintf("r%d", i))
+	}
+	getConfigResult := tlstatshouse.GetConfigResult3{Addresses: addrs, ShardByMetricCount: uint32(nShards)}
+	a, err := MakeAgent("tcp4", cacheDir, "", nil, config, "verif-agent",
+		format.TagValueIDComponentAgent, nil, pcache.NewMappingsCache(data_model.NewChunkedStorageNop(), 1024*1024, 86400),
+		func() (int64, string) { return 0, "" }, func() (int64, string) { return 0, "" },
+		func(string, ...interface{}) {}, nil, &getConfigResult, nil)
+	if err != nil {
+		return nil, err
+	}
+	for _, sr := range a.ShardReplicas {
+		sr.mu.Lock()
+		sr.clientField.Client = client
+		sr.mu.Unlock()
+	}
+	return &VerifC01Multi{A: a}, nil
+}
+
+// Save = what a failed send does with a second of shard `shard`: real diskCachePutWithLog + appendHistoricBucketsToSend.
+func (m *VerifC01Multi) Save(shard int, t uint32, body []byte) (id int64) {
+	s := m.A.Shards[shard]
+	cbd := s.diskCachePutWithLog(compressedBucketData{time: t, data: body})
+	s.appendHistoricBucketsToSend(cbd)
+	return cbd.id
+}
+
+// StartEraser starts the REAL goEraseHistoric of one shard. It is never cancelled (it would return with its mutex
+// unlocked and a deferred Unlock); after one pass it sits in its 60 s wait.
+func (m *VerifC01Multi) StartEraser(shard int) {
+	var wg sync.WaitGroup
+	wg.Add(1)
+	go m.A.Shards[shard].goEraseHistoric(&wg, context.Background())
+}
+
+// OnDisk: is the record still known to the disk cache of the shard; Queue: length of the shard's historic queue;
+// Usage: the shard's own disk usage and its share of the limit, as goEraseHistoric is documented to compare them.
+func (m *VerifC01Multi) OnDisk(shard int, id int64) bool {
+	d := m.A.diskBucketCache.shards[shard]
+	d.mu.Lock()
+	defer d.mu.Unlock()
+	_, ok := d.knownBuckets[id]
+	return ok
+}
+func (m *VerifC01Multi) Queue(shard int) int {
+	s := m.A.Shards[shard]
+	s.mu.Lock()
+	defer s.mu.Unlock()
+	return len(s.historicBucketsToSend)
+}
+func (m *VerifC01Multi) Usage(shard int) (used int64, share int64, sum int64) {
+	used, _ = m.A.diskBucketCache.TotalFileSize(shard)
+	for i := range m.A.Shards {
+		t, _ := m.A.diskBucketCache.TotalFileSize(i)
+		sum += t
+	}
+	s := m.A.Shards[shard]
+	s.mu.Lock()
+	defer s.mu.Unlock()
+	return used, s.config.MaxHistoricDiskSize / int64(m.A.NumShards()), sum
+}
+func (m *VerifC01Multi) Close() { _ = m.A.diskBucketCache.Close() }
 
 func (v *VerifC01Agent) OutOfWindowDropped() int64 { return v.shard.HistoricOutOfWindowDropped.Load() }
 
